@@ -13,7 +13,7 @@ for P in "$@"; do
     if [ $rc -ne 0 ]; then bad=1; echo "$(basename $P): C$i rc=$rc $(grep -m1 -o 'sig=[^ ]*' /tmp/bn.out | cut -c1-100) $(grep -m1 HARNESS /tmp/bn.out | cut -c1-160)"; fi
     echo "$(basename $P) C$i rc=$rc $inc" >> /tmp/benign.detail
   done
-  git -C /repo checkout -- .
+  git -C /repo checkout -- . ; git -C /repo clean -fdq -- src tests
   [ $bad -eq 0 ] && echo "$(basename $P): silent on all 17"
 done
 cp /tmp/evid.benign/*.json evidence/
